@@ -254,9 +254,27 @@ def run(R):
                     arr = np.array([rng.choice(pool) for _ in range(int(np.prod(shape)))], dtype=dt).reshape(shape)
                 # the array handed to write_chunk may be big-endian or of a narrower type that casts
                 # safely; what must come back is its value in the dataset's data type
+                # first bytes that look like a compressed or otherwise "recognisable" stream (raw encoding stores
+                # the voxels as they are: 1f 8b is gzip's magic, ff d8 JPEG's, 89 50 PNG's)
+                if sc["encoding"] == "raw" and rng.random() < 0.15 and arr.size >= 2:
+                    magic = rng.choice([b"\x1f\x8b\x08\x00", b"\xff\xd8\xff\xe0", b"\x89PNG", b"\x78\x9c\x01\x00"])
+                    flat = arr.reshape(-1)
+                    head = np.frombuffer((magic * 2)[:max(arr.dtype.itemsize, 4 // arr.dtype.itemsize * arr.dtype.itemsize)],
+                                         dtype=arr.dtype.newbyteorder("<"))
+                    flat[:min(len(head), flat.size)] = head[:min(len(head), flat.size)]
+                    R.count("seq:chunk-starts-with-magic-bytes")
                 want = arr
                 given = arr
                 r = rng.random()
+                if 0.3 <= r < 0.5:
+                    # the same values in another memory layout: Fortran order, or a strided view
+                    if r < 0.4:
+                        given = np.asfortranarray(arr)
+                    else:
+                        big = np.zeros(tuple(2 * n for n in arr.shape), dtype=arr.dtype)
+                        big[::2, ::2, ::2, ::2] = arr
+                        given = big[::2, ::2, ::2, ::2]
+                    R.count("seq:given-array-layout:" + ("fortran" if r < 0.4 else "strided"))
                 if r < 0.2 and arr.dtype.itemsize > 1:
                     given = arr.astype(arr.dtype.newbyteorder(">"))
                 elif r < 0.3 and sc["encoding"] == "raw" and dt in ("uint16", "uint32", "uint64", "float32"):
@@ -387,6 +405,7 @@ def run(R):
         R.count(f"seq:{enc}:{kind}")
     _handles_stream(R, rng, quick)
     _sharded_stream(R, rng, quick)
+    _magic_stream(R, rng, quick)
     R.extra["jpeg_max_abs_error_observed"] = int(jpeg_err)
     R.notes.append("JPEG: only shape/dtype and a loose error bound (<= 64 grey levels on smooth data) are "
                    "checked; the bound is a test, not a theorem (libjpeg is outside the model)")
@@ -614,6 +633,41 @@ def _sharded_stream(R, rng, quick):
         except Exception as e:  # noqa: BLE001
             R.violation("sharded storage: writing or reading back through the I/O layer failed", case,
                         {"exc": f"{type(e).__name__}: {e}"[:300]})
+
+
+def _magic_stream(R, rng, quick):
+    """Raw chunks whose first bytes are the magic numbers of gzip, zlib, JPEG, PNG (raw encoding stores the
+    voxels as they are): every data type x every file-accessor option set, read back through the same and a
+    fresh handle."""
+    from neuroglancer_scripts import accessor, precomputed_io
+    magics = [b"\x1f\x8b\x08\x00\x00\x00\x00\x00", b"\x78\x9c\x01\x00\x00\xff\xff\x00", b"\xff\xd8\xff\xe0\x00\x10JF",
+              b"\x89PNG\r\n\x1a\n", b"\xef\xbb\xbf{\"a\":1}"[:8]]
+    k = 0
+    for dt in DT:
+        for opts in ({"gzip": True}, {"gzip": False}, {"flat": True, "gzip": True}, {"flat": True, "gzip": False}):
+            for magic in magics:
+                k += 1
+                d = os.path.join(R.tmp, f"magic{k}")
+                sc = {"key": "s0", "size": [3, 2, 2], "chunk_sizes": [[3, 2, 2]], "encoding": "raw", "resolution": [1, 1, 1],
+                      "voxel_offset": [0, 0, 0]}
+                info = {"type": "image", "data_type": dt, "num_channels": 1, "scales": [sc]}
+                arr = np.arange(12, dtype=dt).reshape(1, 2, 2, 3)
+                head = np.frombuffer(magic[:8], dtype=np.dtype(dt).newbyteorder("<"))
+                arr.reshape(-1)[:len(head)] = head
+                case = {"magic_stream": True, "data_type": dt, "options": opts, "first_bytes": magic[:4].hex()}
+                R.case(case, nontrivial=True)
+                c = (0, 3, 0, 2, 0, 2)
+                try:
+                    pio = precomputed_io.get_IO_for_new_dataset(info, accessor.get_accessor_for_url(d, dict(opts)))
+                    pio.write_chunk(arr, "s0", c)
+                    got = [pio.read_chunk("s0", c),
+                           precomputed_io.get_IO_for_existing_dataset(accessor.get_accessor_for_url(d)).read_chunk("s0", c)]
+                    if any(g.tobytes() != arr.tobytes() for g in got):
+                        R.violation("a raw chunk that starts with magic bytes reads back differently", case, {})
+                except Exception as e:  # noqa: BLE001
+                    R.violation("a raw chunk that starts with magic bytes cannot be written and read back", case,
+                                {"exc": f"{type(e).__name__}: {e}"[:200]})
+    R.count("magic-stream:cases", k) if False else R.count("magic-stream")
 
 
 def precomputed_ok(info):
